@@ -38,7 +38,8 @@ BUDGET = {"quick": 60, "thorough": 1200}
 CHUNK = 8
 PROBES = ["compatible", "compatible_tls13", "compatible_tls12",
           "compatible_legacy", "incompatible", "purity_checked",
-          "idempotence_checked", "validate_rejected"]
+          "idempotence_checked", "validate_rejected", "second_connection",
+          "second_resumed"]
 COMPONENTS_REAL = ["HandshakeSettings.validate, client+server handshakes"]
 COMPONENTS_STUB = ["socket", "os.urandom", "clock"]
 ASSUMPTIONS = ["honest peers, benign transport"]
@@ -95,6 +96,17 @@ def run(job, streams=None):
                 d["minVersion"] = list(top)
     lattice.fix_keyshares(c)
     lattice.fix_keyshares(s)
+    # session / ticket / PSK options next to the lattice: they add ways to
+    # connect, they must never take one away
+    if ch.draw(4, "opt.psk") == 1:
+        pk = [list(scen.PSK_HEX) + [["sha256", "sha384"][ch.draw(2,
+                                                                "opt.pskh")]]]
+        c["pskConfigs"] = pk
+        s["pskConfigs"] = [list(pk[0])]
+    if ch.draw(3, "opt.tick") == 1:
+        s["ticketKeys"] = ["77" * 32]
+    second = ch.draw(3, "opt.second") != 2
+    use_cache = ch.draw(2, "opt.cache") == 1
     skey = ["rsa", "ecdsa"][ch.draw(2, "skey")]
     sc = {"cset": c, "sset": s, "flavour": "cert", "skey": skey}
     if ch.draw(4, "alpn") == 1:
@@ -165,7 +177,12 @@ def run(job, streams=None):
         return _res(job, ch, sim, None, sc, viol, probes, False, "cfg")
     snap_c = snapshot(pair.cset)
     snap_s = snapshot(pair.sset)
-    oc, os_, st = pair.handshake()
+    cache = None
+    if use_cache:
+        from tlslite.api import SessionCache
+        with kernel.Node("cache", seed):
+            cache = SessionCache()
+    oc, os_, st = pair.handshake(cache=cache)
     for role, before, obj in (("client", snap_c, pair.cset),
                               ("server", snap_s, pair.sset)):
         for k, a, b in diff_snap(before, snapshot(obj)):
@@ -193,6 +210,49 @@ def run(job, streams=None):
               "server=%r" % (why, oc.exc, os_.exc))
     else:
         probes["incompatible"] = 1
+    if both and second:
+        # the same two configurations meet again, the client offering what
+        # the first connection left it with (session ID / ticket / PSK)
+        from sim import script as sim_script
+        sim_script.run_script(
+            sim, {"c": pair.c, "s": pair.s},
+            [["s", "w"], ["c", "r"], ["c", "close"], ["s", "r0"]],
+            lambda ep, op: {
+                "w": lambda: ep.conn.writeAsync(b"first"),
+                "r": lambda: ep.conn.readAsync(None, 5),
+                "r0": lambda: ep.conn.readAsync(None, 1),
+                "close": lambda: ep.conn.closeAsync()}[op[1]])
+        session = pair.c.conn.session
+        sim.links.remove(pair.link)
+        sim.eps.remove(pair.c)
+        sim.eps.remove(pair.s)
+        pair2 = nodes.Pair(sim, sc, policy="random",
+                           wb_budget=kernel.Budget(10),
+                           delay_budget=kernel.Budget(10),
+                           cnode=kernel.Node("c2", seed),
+                           snode=kernel.Node("s2", seed))
+        try:
+            oc2, os2, st2 = pair2.handshake(session=session, cache=cache)
+        except ValueError:
+            oc2 = os2 = None        # API-level refusal of the session
+        if oc2 is not None:
+            probes["second_connection"] = 1
+            if oc2.kind == "ok" and pair2.c.conn.resumed:
+                probes["second_resumed"] = 1
+            if not (oc2.kind == "ok" and os2.kind == "ok"):
+                e = oc2.exc if oc2.kind == "exc" else os2.exc
+                from sim.trace import where
+                msg_ = str(getattr(e, "message", "") or "")
+                v("compatible_did_not_connect",
+                  "second|%s|%s|%s|%s" % (
+                      "tls13" if tuple(pair.c.conn.version) == (3, 4) else
+                      "legacy", type(e).__name__,
+                      getattr(e, "description", ""),
+                      "declined_ticket" if "Expecting new_session_ticket"
+                      in msg_ else where(e)),
+                  "the first connection succeeded, the second one between "
+                  "the same settings (client offering its session) failed: "
+                  "client=%r server=%r" % (oc2.exc, os2.exc))
     return _res(job, ch, sim, pair, sc, viol, probes, compat,
                 repr((oc.sig(), os_.sig(), why)))
 
